@@ -80,6 +80,8 @@ def _setup_faults(eng, fr):
 
 
 def register(w):
+    w.always_standin["C03"] = [("pygopherd/handlers/mbox.py::MessageHandler.getmessage", "mailbox access is an assumed interface (mailbox module): message selectors in and out of range"),
+                               ("pygopherd/handlers/dir.py::DirHandler.prepare", "independence from earlier requests through the directory cache is a property of histories")]
     _register_iface(w)
     w.fields("AnyHandler", entry="opt[obj:GopherEntry]", body="ghost:bytes")
     w.fields("BaseGopherProtocol", handler="opt[obj:AnyHandler]")
@@ -268,16 +270,19 @@ def register2(w):
     w.lemma("ascii-digit-field", ["req:str", "mid:str", "f:str"],
             hyp=["req.isascii()", "mid in req", "f in mid", "f.isdigit()"], goal=["ascii_digits(f)"], props=["C03", "C20", "C01", "C04", "C05", "C06"],
             note="a field of an ASCII request line that passes str.isdigit() consists of ASCII digits, so int() of it is exact and cannot raise")
-    w.contract("iface::AnyProtocol.handle", modifies=[], raises={"OSError": True}, assumed=True,
-               note="interface: what every protocol's handle() guarantees (BaseGopherProtocol/GopherPlus/HTTP/Gemini/Spartan .handle.raises-only-declared): only OSError escapes",
+    w.contract("iface::AnyProtocol.handle", modifies=["ghost.nescaped"], raises={"OSError": True}, assumed=True,
+               ghost={"nescaped": "int"},
+               ensures=["ghost.nescaped == old(ghost.nescaped)"], on_raise={"OSError": ["ghost.nescaped == old(ghost.nescaped) + 1"]},
+               note="interface: what every protocol's handle() guarantees (BaseGopherProtocol/GopherPlus/HTTP/Gemini/Spartan .handle.raises-only-declared): only OSError escapes; "
+                    "the ghost counter nescaped counts the failures that escape to the connection handler",
                props=["C20", "C03"])
     w.contract("pygopherd/server.py::GopherRequestHandler.handle",
                selfclass=["GopherRequestHandler"],
-               requires=["self.rfile.pos <= len(self.rfile.content)"],
-               modifies=["self.rfile.pos", "ghost.log"], raises={},
-               ghost={"log": "log"},
+               requires=["self.rfile.pos <= len(self.rfile.content)", "ghost.nescaped == 0"],
+               modifies=["self.rfile.pos", "ghost.log", "ghost.nescaped"], raises={},
+               ghost={"log": "log", "nescaped": "int"},
                opts={"getprotocol_iface": True},
-               ensures=["len(ghost.log) <= 1",
+               ensures=["len(ghost.log) <= 1", "len(ghost.log) == ghost.nescaped",
                         "implies(len(ghost.log) == 1, ghost.log[0].startswith(self.client_address[0] + ' [AnyProtocol/None] EXCEPTION OSError: '))"],
-               note="nothing raised by the protocol reaches the accept loop; a failure is logged once, with the client's address and under the class of the exception that was caught (AnyProtocol stands for the protocol class name)",
+               note="nothing raised by the protocol reaches the accept loop; a failure that escapes the protocol IS logged (len(log) == number of escaped failures), once, with the client's address and under the class of the exception that was caught (AnyProtocol stands for the protocol class name)",
                props=["C20", "C03"])
